@@ -47,6 +47,7 @@ type HarnessResult struct {
 	SamplePaths  []string
 	Observed     [][]string
 	Terms        int64
+	InitNotes    []string
 }
 
 func (r *HarnessResult) Inconclusive() []string {
@@ -182,6 +183,9 @@ func Explore(p *Program, entry *ssa.Function, cfg Config, opts ExploreOpts) *Har
 			mu.Lock()
 			for f := range m.funcsSeen {
 				funcs[f] = true
+			}
+			if len(res.InitNotes) == 0 {
+				res.InitNotes = append(res.InitNotes, m.InitNotes...)
 			}
 			res.Queries += sol.Queries
 			res.SolverSec += sol.Seconds
